@@ -3,6 +3,7 @@ package main
 import (
 	"encoding/json"
 	"fmt"
+	"sort"
 	"strings"
 	"time"
 )
@@ -461,6 +462,67 @@ func c04partD(c *Ctx) {
 			c.Count("d_quartet_pairs_different_taxa", st.diff)
 		}
 	}
+	// forced hash collisions: quartets on different taxa whose hash codes are equal must not be HashEquals
+	// (all 4-subsets of 0..K-1 are hashed and grouped by hash code; collisions need taxon ids >= 35)
+	{
+		K := uint(48)
+		if !c.Quick() {
+			K = 72
+		}
+		groups := map[uint64][]c04q{}
+		for a := uint(0); a < K; a++ {
+			for b := a + 1; b < K; b++ {
+				for cc := b + 1; cc < K; cc++ {
+					for d := cc + 1; d < K; d++ {
+						q := c04q{a, b, cc, d}
+						h := q.gt().HashCode()
+						groups[h] = append(groups[h], q)
+					}
+				}
+			}
+		}
+		var hs []uint64
+		for h, g := range groups {
+			if len(g) >= 2 {
+				hs = append(hs, h)
+			}
+		}
+		sort.Slice(hs, func(i, j int) bool { return hs[i] < hs[j] })
+		for _, h := range hs {
+			if c.TimeUp() {
+				return
+			}
+			if !c.Mine() {
+				continue
+			}
+			g := groups[h]
+			for i := range g {
+				// every presentation of every other member of the group
+				var others []c04q
+				for j := range g {
+					if j != i {
+						others = append(others, c04tuples(g[j][:])...)
+					}
+				}
+				q1 := g[i]
+				cs := &c04case{Part: "d", Q1: (*[4]uint)(&q1)}
+				var st c04qstats
+				c.Check(cs, func() (string, string) {
+					var s c04qstats
+					k, w, with := c04quartetPairs(q1, others, &s)
+					st = s
+					if k != "" {
+						w2 := [4]uint(with)
+						cs.Q2 = &w2
+					}
+					return k, w
+				})
+				c.Transitions += st.pairs
+				c.Count("d_forced_hash_collisions", st.diff)
+			}
+			c.States++
+		}
+	}
 	nmax := 6
 	if !c.Quick() {
 		nmax = 7
@@ -530,7 +592,7 @@ func init() {
 			"c_edgeindex_histories", "c_edgeindex_operations_on_a_split_already_present", "c_edgeindex_hits_through_the_other_presentation", "c_edgeindex_insertions_reaching_capacity_x_loadfactor",
 			"c_edgeindex_bulk_histories", "c_edgeindex_bulk_insertions_reaching_capacity_x_loadfactor",
 			"h_hashmap_histories", "h_hashmap_puts_overwriting", "h_hashmap_insertions_colliding_on_the_full_hash_code", "h_hashmap_insertions_reaching_capacity_x_loadfactor", "h_hashmap_bulk_histories",
-			"d_quartet_pairs_equal", "d_quartet_pairs_conflicting", "d_quartet_pairs_different_taxa", "d_quartet_index_trees", "d_quartet_index_lookups_through_another_presentation", "d_IndexQuartets_direct_calls",
+			"d_quartet_pairs_equal", "d_quartet_pairs_conflicting", "d_quartet_pairs_different_taxa", "d_forced_hash_collisions", "d_quartet_index_trees", "d_quartet_index_lookups_through_another_presentation", "d_IndexQuartets_direct_calls",
 		},
 		Run: func(c *Ctx) {
 			t0 := time.Now()
